@@ -218,6 +218,7 @@ var c31OtherHeaderKeys = []string{"content-type", "Content-Type", "content-encod
 	"app", "lfs_blob", "LFS_BLOB2", "LFS-BLOB", "", "k\x00ey", "ünï", "LFS_BLOB_ALG_X"}
 
 type c31GenInfo struct {
+	allowBad     bool // this request may carry a wrong checksum / unsupported algorithm / checksum with alg none
 	expectReject bool // wrong checksum / unsupported algorithm / checksum with alg none: an error is the expected answer
 }
 
@@ -279,6 +280,9 @@ func c31GenRecord(t *rapid.T, i int, defaultAlg string, flagBias int, big bool, 
 		// algorithm header
 		alg := defaultAlg
 		algHdr := rapid.SampledFrom([]string{"", "", "", "sha256", "md5", "crc32", "none", "MD5", " sha256 ", "sha1"}).Draw(t, "algHeader")
+		if algHdr == "sha1" && !info.allowBad {
+			algHdr = "crc32"
+		}
 		var extra []vfkit.RecHeader
 		if algHdr != "" {
 			extra = append(extra, vfkit.RecHeader{Key: "LFS_BLOB_ALG", Value: []byte(algHdr)})
@@ -299,7 +303,7 @@ func c31GenRecord(t *rapid.T, i int, defaultAlg string, flagBias int, big bool, 
 		case 5:
 			flagVal = []byte("  " + correct + " ")
 		case 6:
-			if rapid.IntRange(0, 3).Draw(t, "wrongChecksum") == 0 {
+			if info.allowBad && rapid.IntRange(0, 1).Draw(t, "wrongChecksum") == 0 {
 				flagVal = []byte("00" + correct)
 				if alg != "sha1" {
 					info.expectReject = true
@@ -311,7 +315,11 @@ func c31GenRecord(t *rapid.T, i int, defaultAlg string, flagBias int, big bool, 
 			flagVal = []byte(correct)
 		}
 		if alg == "none" && len(strings.TrimSpace(string(flagVal))) > 0 {
-			info.expectReject = true
+			if info.allowBad {
+				info.expectReject = true
+			} else {
+				flagVal = []byte{}
+			}
 		}
 		flag := vfkit.RecHeader{Key: "LFS_BLOB", Value: flagVal}
 		// position of the flag among the other headers, possibly duplicated
@@ -563,10 +571,10 @@ func TestVF_C31_Rewrite(t *testing.T) {
 		fs.objects["ns31/pre/lfs/2020/01/01/obj-preexisting"] = []byte("pre-existing")
 		pre := map[string]bool{"ns31/pre/lfs/2020/01/01/obj-preexisting": true}
 		m := c31Module(fs, defaultAlg, chunk)
-		info := &c31GenInfo{}
+		info := &c31GenInfo{allowBad: rapid.IntRange(0, 7).Draw(t, "allowBadFlags") == 0}
 		flagBias := rapid.SampledFrom([]int{0, 2, 4, 4, 6, 9}).Draw(t, "flagBias")
 
-		nt := rapid.IntRange(1, 3).Draw(t, "nTopics")
+		nt := rapid.SampledFrom([]int{1, 1, 2, 3}).Draw(t, "nTopics")
 		topics := make([]c31Topic, nt)
 		req := &kmsg.ProduceRequest{Acks: 1, TimeoutMillis: 5000}
 		sample := c31Sample{Topics: nt}
@@ -574,11 +582,11 @@ func TestVF_C31_Rewrite(t *testing.T) {
 		mixedCompressed := 0
 		for ti := range topics {
 			topics[ti].name = rapid.SampledFrom([]string{"orders", "lfs.t", "a-b_c", "T2", "x"}).Draw(t, "topic") + fmt.Sprint(ti)
-			np := rapid.IntRange(1, 3).Draw(t, "nParts")
+			np := rapid.SampledFrom([]int{1, 1, 2, 3}).Draw(t, "nParts")
 			rt := kmsg.ProduceRequestTopic{Topic: topics[ti].name}
 			for pi := 0; pi < np; pi++ {
 				part := c31Part{index: int32(rapid.IntRange(0, 40).Draw(t, "partIndex"))}
-				nb := rapid.IntRange(0, 3).Draw(t, "nBatches")
+				nb := rapid.SampledFrom([]int{0, 1, 1, 1, 2, 2, 3}).Draw(t, "nBatches")
 				for bi := 0; bi < nb; bi++ {
 					nr := rapid.OneOf(rapid.IntRange(1, 4), rapid.IntRange(1, 20)).Draw(t, "nRecords")
 					recs := make([]vfkit.Record, nr)
@@ -590,7 +598,8 @@ func TestVF_C31_Rewrite(t *testing.T) {
 							fl++
 						}
 					}
-					b := c31Batch{codec: rapid.IntRange(0, 4).Draw(t, "codec"), flagged: fl}
+					// gzip/zstd are rarer: the code under test builds a fresh encoder per rewritten batch (tens of ms)
+					b := c31Batch{codec: rapid.SampledFrom([]int{0, 0, 0, 0, 2, 2, 2, 2, 3, 3, 3, 3, 1, 4}).Draw(t, "codec"), flagged: fl}
 					first := rapid.SampledFrom([]int64{0, 1, 1700000000000, -1}).Draw(t, "firstTs")
 					nbh := vfkit.NewBatch(rapid.SampledFrom([]int64{0, 0, 5, 1 << 33}).Draw(t, "baseOffset"), first, recs)
 					// NewBatch renumbers offset deltas 0..n-1 and derives lastOffsetDelta/numRecords
